@@ -63,12 +63,18 @@ ASSUME = {
  "C15": ["C15_sentences_generated has no hypothesis about the sentence: for EVERY rule text the grammar accepts - names, numbers, string literals, negative integers and integers with exponents included - every rendering of its tree (any spelling of not and of the operators, optional blanks, newlines, comma blanks) reads back as that tree. What it uses of the table are facts proved on every run for the table regenerated from JsonQuery.g4: adj_separated_all, int_follow, spell_table (kernel evaluation), string_tokens_closed and signed_ok (these two depend on the syntactic form of the STRING, INT, DOUBLE and VERSION rules in the regenerated table; when the grammar file is rewritten equivalently they may stop checking and the statement falls back to the per-tree form below - never an alarm by itself)", "per-tree form (C15_render): every rendering, under every choice of the free spellings, of a tree that is well-formed in the decidable sense `wf` (every name / literal text / connective is a canonical token of its kind for the regenerated table, string literals closed, right operands primaries) is read back as that tree, given SignedOK of the table; `wf` is checked per tree (kernel-evaluated instances), and the engine's agreement with the model's lexer and parser is the metamorphic correspondence"],
  "C16": ["convertible literals; object-shaped paths (calls ended by a recovered panic are covered since repair D10)"],
  "C19": ["values attached with Set are abstracted to their JSON rendering by encoding/json (or 'not encodable')"],
- "C20": ["conformance of the generated Go lexer/parser is differential (tokens, accept/reject, tree shape), not a theorem"],
+ "C20": ["conformance of the generated Go parser is differential (accept/reject, tree shape), not a theorem; for the lexer TABLES (the serialised ATN in jsonquery_lexer.go) language equality with the token rules of the .g4, rule by rule and in priority order, is a kernel-checked theorem (lexer_atn_language) about the decoded tables under the ATN semantics of Model/ATN.lean; the ANTLR runtime that interprets the tables (longest match, priority) is trusted and compared differentially"],
 }
 # proof modules that depend on the SYNTACTIC form of a regenerated table (not only on its language): when the grammar
 # file is rewritten equivalently they may stop checking although nothing is wrong; then the statement falls back to its
 # per-token form and the check says so (never an alarm by itself)
 O["C15"]["soft_theorems"] = {"RulesModel.Proofs.C15SignedTable": ["Rules.Signed.digits_dot", "Rules.Signed.signed_ok"], "RulesModel.Proofs.C15StringClosed": ["Rules.StrClosed.str_prefix_free", "Rules.StrClosed.string_tokens_closed", "Rules.Render.table_ok", "Rules.Render.C15_render_all", "Rules.Render.C15_sentences_generated", "Rules.Render.C15_sentences_generated_process"]}
+# the shipped lexer tables against the grammar's token rules, checked by the kernel on every run (Tie/LexerATNProof.lean):
+# a search for a bisimulation certificate per token rule + its check + NFA.rule_equiv. Soft: when the tables change the
+# kernel evaluation may fail (then Tie/LexerATN - the translator's own comparison - names a distinguishing string and the
+# correspondence runs it), and an unreadable ATN proves nothing
+for pid in ("C05", "C15", "C20"):
+    O[pid].setdefault("soft_theorems", {})["RulesModel.Tie.LexerATNProof"] = ["Rules.NFA.cert_sound", "Rules.NFA.rx_lang", "Rules.NFA.rule_equiv", "Rules.Tie.tables_checked", "Rules.Tie.lexer_atn_language"]
 for pid, o in O.items():
     o["assumptions"] = ASSUME["all"] + ASSUME.get(pid, [])
     if not EXTRA.get(pid):
